@@ -128,6 +128,28 @@ type Loc struct {
 	path []pathStep
 }
 
+// fieldAddr is the address of field `comp` of object `base`: an injective
+// function of (object, field), positive.
+func (c *Ctx) fieldAddr(base Term, comp string) Term {
+	if c.compIDs == nil {
+		c.compIDs = map[string]int{}
+	}
+	id, ok := c.compIDs[comp]
+	if !ok {
+		id = len(c.compIDs) + 1
+		c.compIDs[comp] = id
+	}
+	if !c.declared["addr_field"] {
+		c.declare("addr_field", "(declare-fun addr_field (Int Int) Int)")
+		c.declare("addr_field_obj", "(declare-fun addr_field_obj (Int) Int)")
+		c.declare("addr_field_id", "(declare-fun addr_field_id (Int) Int)")
+	}
+	t := app(SInt, "addr_field", base, intLit(int64(id)))
+	// ground instance of: addr_field is positive and injective in (object, field)
+	c.assume(tAnd(app(SBool, "<", intLit(0), t), tEq(app(SInt, "addr_field_obj", t), base), tEq(app(SInt, "addr_field_id", t), intLit(int64(id)))), false)
+	return t
+}
+
 // slElem reads element j of a slice view (backing array contents A, offset o).
 // It is an uninterpreted function with the defining axiom
 //   sl_elem(A, o, j) == select(A, o + j)
